@@ -682,6 +682,17 @@ func runDoOnce(c Case, try int) (res obs.Result, raced bool) {
 	if *propFlag == "C28" {
 		retryOracle(&res, "cluster.go:do", !write, !disableRetry, delays, ticks, func(i int) bool { return false }, true)
 	}
+	if *propFlag == "C03" && write {
+		n := 0
+		for _, a := range arr {
+			if a.Executed {
+				n++
+			}
+		}
+		if n > 1 {
+			fail("executed-twice", "non-retryable SET executed %d times in one call", n)
+		}
+	}
 	return
 }
 
